@@ -36,8 +36,13 @@ S = 10 ** 9
 
 # ------------------------------------------------------------------ frames
 
+_TZ = [None]        # time zone of the index for the case being checked (case["tz"]); labels stay UTC nanoseconds (`asi8`)
+
+
 def mkframe(rows):
     idx = pd.to_datetime(np.array([r[0] for r in rows], dtype="int64"), unit="ns")
+    if _TZ[0]:
+        idx = idx.tz_localize("UTC").tz_convert(_TZ[0])
     x = np.array([np.nan if r[1] is None else float(r[1]) for r in rows], dtype=float)
     k = np.array([r[2] for r in rows], dtype="int64")
     return pd.DataFrame({"x": x, "k": k}, index=idx)
@@ -341,7 +346,10 @@ def run_api(case, name):
     else:
         val = pd.Timedelta(case["w"], "ns")
         w = sdf.window(val, with_state=with_state) if spell == "pos" else sdf.window(value=val, with_state=with_state)
-    L = api_pipeline(name, sdf, w).stream.sink_to_list()
+    try:
+        L = api_pipeline(name, sdf, w).stream.sink_to_list()
+    except Exception as e:      # noqa: BLE001 - building the pipeline runs the accumulator on the example frame
+        return [{"raised": type(e).__name__, "msg": "while the pipeline was built: " + str(e)[:200]} for _ in case["batches"]]
     out = []
     for rows in case["batches"]:
         before = len(L)
@@ -506,6 +514,9 @@ def check_case(ctx, case, answers):
     stream = bool(case.get("stream"))
     ctx.count("diff:" + case["diff"])
     ctx.count("grouper:" + ("stream" if stream else "column"))
+    _TZ[0] = case.get("tz")
+    if _TZ[0]:
+        ctx.count("tz-aware-index")
     batches = case["batches"]
     frames = [mkframe(b) for b in batches]
     prefixes, wins = [], []
@@ -699,6 +710,8 @@ def gen_case(rng, thorough):
     case = {"diff": diff, "w": W, "gran": gran, "stream": stream, "batches": batches, "api": api}
     if rng.random() < 0.4:
         case["spell"] = "pos"
+    if rng.random() < 0.2:
+        case["tz"] = rng.choice(["UTC", "Europe/Berlin", "America/New_York"])     # a time-zone-aware DatetimeIndex
     if diff == "iloc" and rng.random() < 0.4:
         case["n_form"] = rng.choice(["int64", "int32", "int16"])      # (unsigned numpy scalars wrap in diff_iloc's subtraction: not a spelling the property covers)
     return case
@@ -723,6 +736,10 @@ CORPUS = [
                  [[9 * S, None, 1]], [[10 * S, 2, 2], [11 * S, 2, 2], [12 * S, 2, 2], [13 * S, 2, 1]]]},
     {"diff": "loc", "w": 3 * S, "gran": "s", "stream": True, "api": ["gmean@sser", "gstd1@col", "df.sum"],
      "batches": [[[0, 1, 0], [S, 2, 1], [S, 3, 1]], [[2 * S, 5, 2]], [], [[8 * S, 1, 0], [8 * S, 1, 0], [9 * S, 2, 1], [10 * S, None, 1], [12 * S, 4, 0]], [[12 * S, 0, 3]]]},
+    {"diff": "loc", "w": 2 * S, "gran": "s", "stream": False, "api": ["sum", "gsum@col", "count"], "tz": "Europe/Berlin",
+     "batches": [[[1 * S, 1, 0], [2 * S, 2, 1]], [[3 * S, 3, 0]], [[4 * S, 4, 1], [5 * S, 5, 1]]]},
+    {"diff": "loc", "w": 3 * S, "gran": "s", "stream": True, "api": ["mean", "gmean@wser"], "tz": "UTC",
+     "batches": [[[1 * S, 1, 0]], [[2 * S, 2, 1], [3 * S, 3, 0]], [], [[7 * S, 4, 1]]]},
     {"diff": "iloc", "w": 2, "gran": "s", "stream": False, "api": ["sum", "gsum@col"], "n_form": "int64", "spell": "kw",
      "batches": [[[1 * S, 1, 0], [2 * S, 2, 1]], [[3 * S, 3, 0]], [[4 * S, 4, 1], [5 * S, 5, 1]]]},
     {"diff": "iloc", "w": 4, "gran": "ns", "stream": False, "api": ["vc", "size", "df.size"],
